@@ -31,7 +31,7 @@ def split_params(s):
     return out
 
 
-def declarations(repo):
+def declarations(repo, include_skipped=False):
     src = open(os.path.join(repo, "include", "utap", "builder.h")).read()
     src = re.sub(r"/\*.*?\*/", " ", src, flags=re.S)
     src = re.sub(r"//[^\n]*", " ", src)
@@ -42,7 +42,7 @@ def declarations(repo):
     decls = []
     for d in re.finditer(r"virtual\s+([A-Za-z_:0-9<>\s\*&]+?)\s+([A-Za-z_0-9]+)\s*\(([^;{]*)\)\s*=\s*0\s*;", body, re.S):
         ret, name, params = d.group(1).strip(), d.group(2), d.group(3)
-        if name in SKIP:
+        if name in SKIP and not include_skipped:
             continue
         ps = []
         for i, p in enumerate(split_params(" ".join(params.split()))):
@@ -82,6 +82,27 @@ def inc_text(repo):
         out.append("void %s(%s) override { long av[] = %s; pre(\"%s\", %d, av); try { DocumentBuilder::%s(%s); } "
                    "catch (UTAP::TypeException&) { post(1); throw; } catch (...) { post(2); throw; } post(0); }"
                    % (name, sig, arr if logged else "{0}", name, len(ps), name, args))
+    return "\n".join(out) + "\n"
+
+
+def fwd_text(repo):
+    """Forwarding decorator (composition): every ParserBuilder virtual is passed to an inner builder (used to trace the
+    final class TigaPropertyBuilder); the callbacks are logged with |fragments| and |properties| before / after."""
+    out = []
+    for ret, name, ps in declarations(repo, include_skipped=True):
+        sig = ", ".join("%s %s" % (t, n) for t, n in ps)
+        args = ", ".join(n for _, n in ps)
+        if name in SKIP:
+            if ret == "void":
+                out.append("void %s(%s) override { inner->%s(%s); }" % (name, sig, name, args))
+            else:
+                out.append("%s %s(%s) override { return inner->%s(%s); }" % (ret, name, sig, name, args))
+            continue
+        logged = ["(long)%s" % n if INTEGRAL.match(t) else "NOARG" for t, n in ps]
+        arr = "{%s}" % ", ".join(logged) if logged else "{0}"
+        out.append("void %s(%s) override { long av[] = %s; pre(\"%s\", %d, av); try { inner->%s(%s); } "
+                   "catch (UTAP::TypeException&) { post(1); throw; } catch (...) { post(2); throw; } post(0); }"
+                   % (name, sig, arr, name, len(ps), name, args))
     return "\n".join(out) + "\n"
 
 
